@@ -434,8 +434,15 @@ write_violation(const char *sig, const char *detail)
             break;
         }
     }
-    if (mc_verbose)
+    if (mc_verbose) {
+        extern void HEprint(FILE *, int) __attribute__((weak));
         printf("  !! VIOLATION sig=%s :: %s\n", sig, detail);
+        if (HEprint) {
+            printf("  HDF error stack at this point:\n");
+            fflush(stdout);
+            HEprint(stdout, 0);
+        }
+    }
     if (cnt > 3 || g_viol_fd < 0)
         return;
     static char buf[16384];
